@@ -74,6 +74,15 @@ type execution struct {
 	runnerIOError  bool
 	runnerWaiting  atomic.Bool
 	advanced       bool
+
+	// Native build directory configuration (late writes by a process the
+	// action left behind).
+	naive        bool
+	fs           *memFS
+	uploadPhase  bool
+	lateTargets  []string
+	lateWrites   int
+	lateInWindow int
 }
 
 func (x *execution) violate(rule, msg string) {
@@ -199,7 +208,12 @@ func newExecution(w *world, id int, p plan) *execution {
 		QueuedTimestamp: timestamppb.New(startTime.Add(-time.Second)),
 		DigestFunction:  remoteexecution.DigestFunction_SHA256,
 	}
-	x.build()
+	if w.naive {
+		x.naive = true
+		x.buildNaive()
+	} else {
+		x.build()
+	}
 	return x
 }
 
@@ -302,6 +316,49 @@ func (x *execution) build() {
 	x.be = builder.NewCachingBuildExecutor(be, &fakeCAS{s: x.store, historical: true}, actionCache, &url.URL{Scheme: "http", Host: "browser.example"})
 }
 
+// buildNaive composes the stack as cmd/bb_worker/main.go does for a native
+// build directory: NaiveBuildDirectory on a local directory (here an
+// in-memory one), the plain clock, no suspending decorators.
+func (x *execution) buildNaive() {
+	wl := x.w.wl
+	globalCAS := &fakeCAS{s: x.store}
+	actionCache := &fakeAC{s: x.store}
+	x.fs = newMemFS()
+	x.sem = semaphore.NewWeighted(16)
+	writer, flusher := re_blobstore.NewBatchedStoreBlobAccess(globalCAS, digest.KeyWithoutInstance, wl.batchSize, x.sem)
+	// The buffers of this configuration must reach the CAS exactly as the
+	// code under test built them (validated or checksum-verifying), so
+	// they are not replaced by instrumented ones.
+	x.recw = &recordingWriter{BlobAccess: writer, x: x, acked: map[string]bool{}, passThrough: true}
+	var casWriter blobstore.BlobAccess = x.recw
+	top := &mdir{fs: x.fs, n: x.fs.root}
+	buildDirectory := builder.NewNaiveBuildDirectory(
+		top,
+		re_cas.NewBlobAccessDirectoryFetcher(globalCAS, 1<<16, 1<<16),
+		nil,
+		semaphore.NewWeighted(1),
+		casWriter,
+	)
+	idleInvoker := cleaner.NewIdleInvoker(func(ctx context.Context) error { return top.RemoveAllChildren() })
+	var nextParallelActionID atomic.Uint64
+	buildDirectoryCreator := builder.NewSharedBuildDirectoryCreator(
+		builder.NewCleanBuildDirectoryCreator(builder.NewRootBuildDirectoryCreator(buildDirectory), idleInvoker),
+		&nextParallelActionID,
+	)
+	var be builder.BuildExecutor = builder.NewLocalBuildExecutor(casWriter, buildDirectoryCreator, &runnerStub{x: x}, x.clock, time.Minute, nil, 1<<16, map[string]string{"PATH": "/bin"}, wl.forceTrees)
+	be = builder.NewMetricsBuildExecutor(
+		builder.NewFilePoolStatsBuildExecutor(
+			builder.NewTimestampedBuildExecutor(
+				builder.NewStorageFlushingBuildExecutor(be, x.recw.flusher(flusher)),
+				x.clock,
+				"{\"worker\":\"w4-native\"}",
+			),
+		),
+	)
+	be = &tapExecutor{BuildExecutor: be, x: x}
+	x.be = builder.NewCachingBuildExecutor(be, &fakeCAS{s: x.store, historical: true}, actionCache, &url.URL{Scheme: "http", Host: "browser.example"})
+}
+
 // uploadSemaphoreFree reports (at quiescence) whether the upload semaphore
 // has a free slot and nobody waits for it, i.e. the dispatcher goroutine of
 // a flush cannot be blocked on it.
@@ -331,6 +388,41 @@ func (x *execution) events() []simsync.Event {
 				e.Fire = func() { x.advanced = true; fire() }
 			}
 			evs = append(evs, e)
+		}
+	}
+	if x.naive && x.plan.mode == planLate && x.uploadPhase && !x.returned && x.lateWrites < 2 {
+		// A process the action left behind still writes to its outputs
+		// while the worker uploads them. Offered while at least one write
+		// sits in the batching layer, acknowledged but not yet flushed.
+		x.recw.mu.Lock()
+		pending := len(x.recw.acked)
+		x.recw.mu.Unlock()
+		if pending > 0 {
+			for i, target := range x.lateTargets {
+				i, target := i, target
+				evs = append(evs, simsync.Event{Key: "late-overwrite " + target, Weight: 2, Fire: func() {
+					before, _ := x.fs.read(target)
+					x.recw.mu.Lock()
+					enqueued := x.recw.acked[blobKey(computeDigest(x.df, before))]
+					x.recw.mu.Unlock()
+					if x.fs.overwrite(target, 5+i) {
+						x.lateWrites++
+						if enqueued {
+							x.lateInWindow++
+							x.w.k.Probe("in-place-overwrite-between-enqueue-and-flush")
+						}
+						x.w.k.FaultsFired["late-overwrite-in-place"]++
+						x.w.k.Annotate("a process left behind overwrites a byte of %s in place", target)
+					}
+				}})
+				evs = append(evs, simsync.Event{Key: "late-append " + target, Weight: 1, Fire: func() {
+					if x.fs.appendTo(target, []byte("...and some more")) {
+						x.lateWrites++
+						x.w.k.FaultsFired["late-append"]++
+						x.w.k.Annotate("a process left behind appends to %s", target)
+					}
+				}})
+			}
 		}
 	}
 	return evs
@@ -380,6 +472,10 @@ func (x *execution) run() {
 // referencedBlobs lists every CAS digest an ActionResult refers to, each with
 // a description, following Tree and Directory messages that are in the CAS.
 func (x *execution) referencedBlobs(res *remoteexecution.ActionResult) (present []string, missing []string) {
+	return referencedBlobs(x.store, res)
+}
+
+func referencedBlobs(st *store, res *remoteexecution.ActionResult) (present []string, missing []string) {
 	if res == nil {
 		return nil, nil
 	}
@@ -388,7 +484,7 @@ func (x *execution) referencedBlobs(res *remoteexecution.ActionResult) (present 
 			return false
 		}
 		desc := fmt.Sprintf("%s %s/%d", what, shortKey(d.Hash), d.SizeBytes)
-		if x.store.hasDigestProto(d) {
+		if st.hasDigestProto(d) {
 			present = append(present, desc)
 			return true
 		}
@@ -411,7 +507,7 @@ func (x *execution) referencedBlobs(res *remoteexecution.ActionResult) (present 
 		if !note("directory message "+what, dd) || depth > 8 {
 			return
 		}
-		data, _ := x.store.getProtoBlob(dd)
+		data, _ := st.getProtoBlob(dd)
 		var d remoteexecution.Directory
 		if proto.Unmarshal(data, &d) != nil {
 			missing = append(missing, "unparsable directory message "+what)
@@ -424,7 +520,7 @@ func (x *execution) referencedBlobs(res *remoteexecution.ActionResult) (present 
 	}
 	for _, od := range res.OutputDirectories {
 		if od.TreeDigest != nil && note("tree of "+od.Path, od.TreeDigest) {
-			data, _ := x.store.getProtoBlob(od.TreeDigest)
+			data, _ := st.getProtoBlob(od.TreeDigest)
 			var tree remoteexecution.Tree
 			if proto.Unmarshal(data, &tree) != nil {
 				missing = append(missing, "unparsable tree of "+od.Path)
@@ -725,39 +821,63 @@ func (r *runnerStub) Run(ctx context.Context, in *runner_pb.RunRequest, opts ...
 		x.w.k.Probe("runner-saw-io-error")
 		return &runner_pb.RunResponse{ExitCode: 74}, nil
 	}
-	if err := writeFile(bg, top, in.StdoutPath, contents[wl.stdout], false); err != nil {
+	// All paths are relative to the top of the worker's build directory.
+	wf := func(p string, data []byte, exec bool) error {
+		if x.naive {
+			x.lateTargets = append(x.lateTargets, strings.Join(splitPath(p), "/"))
+			return x.fs.writeFile(p, data, exec)
+		}
+		return writeFile(bg, top, p, data, exec)
+	}
+	sl := func(p, target string) error {
+		if x.naive {
+			return x.fs.symlink(p, target)
+		}
+		return makeSymlink(bg, top, p, target)
+	}
+	md := func(p string) error {
+		if x.naive {
+			return x.fs.mkdirAll(p)
+		}
+		_, err := walk(bg, top, splitPath(p), true)
+		return err
+	}
+	if err := wf(in.StdoutPath, contents[wl.stdout], false); err != nil {
 		return fail(err)
 	}
-	if err := writeFile(bg, top, in.StderrPath, contents[wl.stderr], false); err != nil {
+	if err := wf(in.StderrPath, contents[wl.stderr], false); err != nil {
 		return fail(err)
 	}
-	inputRoot, err := walk(bg, top, splitPath(in.InputRootDirectory), false)
-	if err != nil {
-		return fail(err)
+	if !x.naive {
+		if _, err := walk(bg, top, splitPath(in.InputRootDirectory), false); err != nil {
+			return fail(err)
+		}
 	}
+	ir := in.InputRootDirectory + "/"
+	var err error
 	for _, c := range wl.creates {
 		switch c.kind {
 		case nodeFile:
-			if err := writeFile(bg, inputRoot, c.target, contents[c.content], c.exec); err != nil {
+			if err := wf(ir+c.target, contents[c.content], c.exec); err != nil {
 				return fail(err)
 			}
 		case nodeSymlink:
-			if err := makeSymlink(bg, inputRoot, c.target, c.link); err != nil {
+			if err := sl(ir+c.target, c.link); err != nil {
 				return fail(err)
 			}
 		case nodeDir:
-			if _, err := walk(bg, inputRoot, splitPath(c.target), true); err != nil {
+			if err := md(ir + c.target); err != nil {
 				return fail(err)
 			}
 			for _, e := range trees[c.tree] {
-				p := c.target + "/" + e.path
+				p := ir + c.target + "/" + e.path
 				switch {
 				case e.content >= 0:
-					err = writeFile(bg, inputRoot, p, contents[e.content], e.exec)
+					err = wf(p, contents[e.content], e.exec)
 				case e.content == -1:
-					err = makeSymlink(bg, inputRoot, p, e.target)
+					err = sl(p, e.target)
 				default:
-					_, err = walk(bg, inputRoot, splitPath(p), true)
+					err = md(p)
 				}
 				if err != nil {
 					return fail(err)
@@ -766,10 +886,11 @@ func (r *runnerStub) Run(ctx context.Context, in *runner_pb.RunRequest, opts ...
 		}
 	}
 	for _, l := range wl.serverLogs {
-		if err := writeFile(bg, top, in.ServerLogsDirectory+"/"+l.path, contents[l.content], false); err != nil {
+		if err := wf(in.ServerLogsDirectory+"/"+l.path, contents[l.content], false); err != nil {
 			return fail(err)
 		}
 	}
+	x.uploadPhase = true
 	switch wl.outcome {
 	case outcomeError:
 		return nil, status.Error(codes.Internal, "runner: command crashed")
